@@ -1219,3 +1219,250 @@ def ord7_smallest_snapshot(P, R, L, rule="ORD-7"):
         hn = {c.name.rsplit("::", 1)[1] for c in sn.calls() if "linked_list" in (c.name or "")}
         R.check(rule, "snapshots::SnapshotList|oldest-vs-newest", ho != hn and bool(ho) and bool(hn), where(so),
                 "oldest() and newest() read opposite ends of the snapshot list", "oldest uses %s, newest uses %s" % (sorted(ho), sorted(hn)))
+
+
+# ------------------------------------------------------------------------------------------- TS-1 / GRD-6 / ORD-14 / OWN-5 / COV-1
+from .. import ts  # noqa: E402
+
+READ_RECORD = "logs::LogReader::read_record"
+READ_PHYS = "logs::LogReader::read_physical_record"
+
+
+def ts1(P, R, L, rule="TS-1"):
+    b = P.body(READ_RECORD)
+    if b is None:
+        return R.missing_anchor(rule, READ_RECORD)
+    R.analysed(b)
+    res = ts.analyse(P, b)
+    R.paths += res["explored"]
+    R.extra["ts1"] = {k: v for k, v in res.items() if k != "violations"}
+    if not res["buffers"] and "fragment" not in res["return_kinds"]:
+        R.check(rule, READ_RECORD + "|anchors", False, where(b), "read_record assembles fragments into a buffer", "no fragment buffer found")
+    if res["variant_edges"] < 4 or res["returns_checked"] < 1:
+        R.check(rule, READ_RECORD + "|anchors", False, where(b), "read_record examines the four fragment types and returns records",
+                "variant edges %d, record returns %d" % (res["variant_edges"], res["returns_checked"]))
+    if not res["violations"]:
+        R.check(rule, READ_RECORD + "|reassembly", True, where(b),
+                "a record is delivered only from a buffer assembled as First Middle* Last, or a single Full fragment",
+                "%d product states explored; %d record-returning exits; %d dropped-fragment edges" % (res["explored"], res["returns_checked"], res["dropped_fragment_edges"]))
+    seen = set()
+    for v in res["violations"]:
+        k = READ_RECORD + "|reassembly|state=%s" % v["state"]
+        if k in seen:
+            continue
+        seen.add(k)
+        R.check(rule, k, False, "%s:%s" % (b.file, v["line"]),
+                "a record is delivered only from a buffer assembled as First Middle* Last, or a single Full fragment", v["detail"])
+
+
+def grd6(P, R, L, rule="GRD-6"):
+    b = P.body(READ_RECORD)
+    if b is None:
+        return R.missing_anchor(rule, READ_RECORD)
+    R.analysed(b)
+    # end-of-log returns: Ok((_, true))
+    eof_blocks = []
+    for bb in range(b.n):
+        if b.is_cleanup(bb):
+            continue
+        for st in b.blocks[bb]["stmts"]:
+            if st["k"] == "assign" and st["pl"]["l"] == 0 and st["rv"]["k"] == "aggregate" and st["rv"].get("variant") == "Ok":
+                tup = st["rv"]["ops"][0]
+                if tup["k"] in ("copy", "move"):
+                    for d in b.defs().get(tup["pl"]["l"], []):
+                        if d[0] == "stmt" and d[3]["rv"]["k"] == "aggregate" and d[3]["rv"]["ak"] == "tuple" and len(d[3]["rv"]["ops"]) == 2:
+                            e = d[3]["rv"]["ops"][1]
+                            if e["k"] == "const" and e.get("val") == "1":
+                                eof_blocks.append((bb, st["line"]))
+                elif tup["k"] == "const" and "true" in (tup.get("text") or ""):
+                    eof_blocks.append((bb, st["line"]))
+    # edges: ErrorKind::UnexpectedEof of the physical read error; cursor >= len
+    kind_src = lambda os_: any(o.kind == "call" and o.name in ("errors::DBIOError::kind", "std::io::Error::kind") for o in os_)
+    e_eof = []
+    ek = None
+    for bb in range(b.n):
+        for st in b.blocks[bb]["stmts"]:
+            if st["k"] == "assign" and st["rv"]["k"] == "discr" and kind_src(origins(b, st["rv"]["pl"])):
+                d = st["pl"]["l"]
+                for sb in range(b.n):
+                    t = b.term(sb)
+                    if t["k"] == "switch" and t["discr"]["k"] in ("copy", "move") and t["discr"]["pl"]["l"] == d:
+                        # std::io::ErrorKind is foreign: identify the UnexpectedEof edge as the one whose target writes the eof tuple
+                        for v, tg in t["targets"]:
+                            e_eof.append((sb, tg, int(v)))
+    e_eof_edges = [(sb, tg) for (sb, tg, v) in e_eof]
+    for c in comparisons(b):
+        is_kind = kind_src
+        is_eofk = lambda os_: any((o.kind == "const" and isinstance(o.name, str) and "UnexpectedEof" in o.name) or
+                                  (o.kind == "agg" and o.name.endswith("UnexpectedEof")) for o in os_)
+        e_eof_edges += c.edges_where("eq", is_kind, is_eofk)
+    cur = origin_pred_field("current_cursor_position")
+    ln = origin_pred_call("logs::LogReader::len")
+    e_len = []
+    for c in comparisons(b):
+        e_len += c.edges_where("ge", cur, ln)
+    R.floor(rule, "end-of-log exits of read_record", len(eof_blocks), 2)
+    for (bb, line) in eof_blocks:
+        ok = (bool(e_eof_edges) and b.must_pass(bb, through_edges=e_eof_edges)) or (bool(e_len) and b.must_pass(bb, through_edges=e_len))
+        R.check(rule, READ_RECORD + "|eof-only-when-file-ends", ok, "%s:%s" % (b.file, line),
+                "end-of-log is reported only for ErrorKind::UnexpectedEof from the physical read or when the cursor reached the file length",
+                "kind-edges %d, len-edges %d" % (len(e_eof_edges), len(e_len)))
+    # the UnexpectedEof edge must lead to the eof return (torn tail => open proceeds), not to an error
+    pr = P.body(READ_PHYS)
+    if pr is None:
+        return R.missing_anchor(rule, READ_PHYS)
+    R.analysed(pr)
+    reads = [c for c in pr.calls() if (c.declared_name or c.name or "").endswith("Read::read") and not pr.is_cleanup(c.bb)]
+    parse = [c for c in pr.calls() if not pr.is_cleanup(c.bb) and "BlockRecord" in (c.name or "") and (c.name or "").endswith("try_from")]
+    if not parse:
+        parse = [c for c in pr.calls() if not pr.is_cleanup(c.bb) and (c.declared_name or "") == "std::convert::TryFrom::try_from"]
+    e_short, e_full = [], []
+    is_read = lambda os_: any(o.kind == "call" and (o.name or "").endswith("Read::read") for o in os_)
+    for c in comparisons(pr):
+        if is_read(c.lhs_origins()) and not is_read(c.rhs_origins()):
+            e_short += _edges_rel(c, "lt", True)
+            e_full += _edges_rel(c, "ge", True)
+        elif is_read(c.rhs_origins()) and not is_read(c.lhs_origins()):
+            e_short += _edges_rel(c, "lt", False)
+            e_full += _edges_rel(c, "ge", False)
+    R.check(rule, READ_PHYS + "|short-read-tests", len(reads) >= 2 and len(e_short) >= 2, where(pr),
+            "both raw reads (header, payload) are followed by a `bytes read < expected` test", "reads=%d short-edges=%d" % (len(reads), len(e_short)))
+    # on the short edge an UnexpectedEof error is constructed and returned; parsing needs the full edges
+    for (sb, tg) in e_short:
+        r = pr.reachable(tg)
+        mk = [c for c in pr.calls() if c.bb in r and c.name == "errors::DBIOError::new" and not pr.is_cleanup(c.bb)]
+        ok = bool(mk) and all(any(o.kind == "const" and isinstance(o.name, str) and "UnexpectedEof" in o.name or
+                                  (o.kind == "agg" and o.name.endswith("UnexpectedEof")) for o in origins(pr, m.args[0])) for m in mk) \
+            and not any(p.bb in r for p in parse)
+        R.check(rule, READ_PHYS + "|short-read-is-unexpected-eof", ok, pr.where(sb),
+                "a short header/payload read returns an UnexpectedEof error (mapped to end-of-log) and never reaches the parser", "")
+    for p_ in parse:
+        n_short_tests = len({sb for (sb, _) in e_short})
+        ok = n_short_tests >= 2 and all(pr.must_pass(p_.bb, through_edges=[(s, t) for (s, t) in e_full if s == sb]) for sb in {sb for (sb, _) in e_short})
+        R.check(rule, READ_PHYS + "|parse-only-full-fragment", ok, p_.where(),
+                "BlockRecord::try_from is reached only when header and payload were read completely", "")
+
+
+def ord14(P, R, L, rule="ORD-14"):
+    # (a) table blocks
+    rb = P.body("tables::table::Table::read_block_from_disk")
+    if rb is None:
+        R.missing_anchor(rule, "Table::read_block_from_disk")
+    else:
+        R.analysed(rb)
+        stored = origin_pred_call("utils::crc::unmask_checksum")
+        calc = lambda os_: any(o.kind == "call" and (o.name or "").startswith("crc::") and (o.name or "").endswith("checksum") for o in os_)
+        eq = []
+        for c in comparisons(rb):
+            eq += c.edges_where("eq", stored, calc)
+        oks = _ok_blocks(rb)
+        parsers = [c for c in rb.calls() if not rb.is_cleanup(c.bb) and (
+            (c.name or "").startswith("snap::") or (c.declared_name or "").endswith("TryInto<U>>::try_into") or (c.name or "").endswith("try_into")
+            or (c.name or "") == "std::io::Read::read_to_end")]
+        ok = bool(eq) and bool(oks) and all(rb.must_pass(x, through_edges=eq) for x in oks) and all(rb.must_pass(c.bb, through_edges=eq) for c in parsers)
+        R.check(rule, rb.path + "|checksum-before-use", ok, where(rb),
+                "every `return Ok` and every interpretation of the block (compression byte, decompression) lies behind the equal edge of stored vs computed checksum",
+                "eq-edges %s, Ok blocks %d, parser sites %d" % (eq, len(oks), len(parsers)))
+        # the checksum is computed over contents + compression byte: the slice handed to checksum ends where the stored checksum starts
+        # short read check
+        rf = [c for c in rb.calls() if (c.declared_name or "").endswith("ReadonlyRandomAccessFile::read_from") and not rb.is_cleanup(c.bb)]
+        ne_edges = []
+        for c in comparisons(rb):
+            is_rf = lambda os_: any(o.kind == "call" and (o.name or "").endswith("read_from") for o in os_)
+            if is_rf(c.lhs_origins()) or is_rf(c.rhs_origins()):
+                ne_edges += [(c.bb, t) for t in (c.false_t if c.op == "ne" else c.true_t if c.op == "eq" else [])]
+        ok = bool(rf) and bool(ne_edges) and all(rb.must_pass(x, through_edges=ne_edges) for x in oks)
+        R.check(rule, rb.path + "|short-read-rejected", ok, where(rb), "a block is used only when the full block + descriptor was read", "")
+    # (b) log fragments
+    tf = None
+    for p in P.bodies:
+        if "logs::BlockRecord" in p and "TryFrom" in p and p.endswith("::try_from"):
+            tf = P.bodies[p]
+    if tf is None:
+        R.missing_anchor(rule, "<BlockRecord as TryFrom<&Vec<u8>>>::try_from")
+    else:
+        R.analysed(tf)
+        stored = origin_pred_call("utils::crc::unmask_checksum")
+        calc = lambda os_: any(o.kind == "call" and (o.name or "").startswith("crc::") and (o.name or "").endswith("checksum") for o in os_)
+        eq = []
+        for c in comparisons(tf):
+            eq += c.edges_where("eq", stored, calc)
+        oks = _ok_blocks(tf)
+        # Ok may also be written by a call (Ok(BlockRecord::new(..)) is an aggregate) - handled by _ok_blocks
+        ok = bool(eq) and bool(oks) and all(tf.must_pass(x, through_edges=eq) for x in oks)
+        R.check(rule, tf.path + "|checksum-before-ok", ok, where(tf),
+                "a log fragment is accepted only over the equal edge of stored vs computed CRC", "eq-edges %s, Ok blocks %d" % (eq, len(oks)))
+    # (c) footer magic
+    ft = None
+    for p in P.bodies:
+        if p.startswith("<tables::footer::Footer as std::convert::TryFrom<") and p.endswith("::try_from"):
+            ft = P.bodies[p]
+    if ft is None:
+        R.missing_anchor(rule, "<Footer as TryFrom>::try_from")
+    else:
+        R.analysed(ft)
+        dec = [c for c in ft.calls() if not ft.is_cleanup(c.bb) and "BlockHandle" in (c.name or "") and ("try_from" in (c.name or "") or "deserialize" in (c.name or ""))]
+        magic_edges = []
+        dec_fixed = lambda os_: any(o.kind == "call" and (o.name or "").endswith("decode_fixed") for o in os_)
+        konst = lambda os_: any(o.kind == "const" for o in os_)
+        for c in comparisons(ft):
+            magic_edges += c.edges_where("eq", dec_fixed, konst)
+        oks = _ok_blocks(ft)
+        ok = bool(magic_edges) and bool(oks) and all(ft.must_pass(x, through_edges=magic_edges) for x in oks) and \
+            all(ft.must_pass(d.bb, through_edges=magic_edges) for d in dec)
+        R.check(rule, ft.path + "|magic-before-ok", ok, where(ft), "a footer is accepted (and its handles decoded) only over the equal edge of the magic-number test",
+                "magic-edges %s, Ok blocks %d, handle decoders %d" % (magic_edges, len(oks), len(dec)))
+
+
+def own5(P, R, L, rule="OWN-5"):
+    RB = "tables::table::Table::read_block_from_disk"
+    # who reads raw bytes of table files
+    rf = [c for c in P.callers_of(lambda c: (c.declared_name or "").endswith("ReadonlyRandomAccessFile::read_from")) if not c.body.is_cleanup(c.bb)]
+    tbl = [c for c in rf if c.body.file.startswith("src/tables/")]
+    for c in tbl:
+        ok = c.body.path in ("tables::table::Table::open", RB)
+        R.check(rule, "%s|reads-table-bytes" % c.body.path, ok, c.where(), "raw table bytes are read only by Table::open (footer) and read_block_from_disk", c.body.path)
+    R.floor(rule, "raw table read sites", len(tbl), 2)
+    # block parsers are fed only by read_block_from_disk
+    for ctor in ("tables::block::BlockReader::new", "tables::filter_block::FilterBlockReader::new"):
+        sites = [c for c in P.callers_of(ctor) if not c.body.is_cleanup(c.bb)]
+        for c in sites:
+            argi = 0 if ctor.endswith("BlockReader::new") and "filter" not in ctor else 1
+            os_ = origins(c.body, c.args[argi])
+            ok = bool(os_) and all(o.kind == "call" and o.name == RB for o in os_)
+            R.check(rule, "%s|feeds-%s" % (c.body.path, ctor.rsplit("::", 2)[1]), ok, c.where(),
+                    "%s receives only bytes returned by read_block_from_disk (checksum verified)" % ctor, "origins %s" % sorted({repr(o) for o in os_})[:4])
+        R.floor(rule, "%s call sites" % ctor, len(sites), 1)
+
+
+def cov1(P, R, L, rule="COV-1"):
+    """writer side: the bytes handed to the CRC data-depend on every header byte that steers parsing"""
+    tb = P.body("tables::table_builder::TableBuilder::emit_block_to_disk")
+    if tb is None:
+        R.missing_anchor(rule, "TableBuilder::emit_block_to_disk")
+    else:
+        R.analysed(tb)
+        cs = [c for c in tb.calls() if not tb.is_cleanup(c.bb) and (c.name or "").startswith("crc::")]
+        # the digest must be updated with the contents and with the compression type byte
+        upd = [c for c in cs if (c.name or "").endswith("update")]
+        whole = [c for c in cs if (c.name or "").endswith("checksum")]
+        ok = len(upd) >= 2 or bool(whole)
+        R.check(rule, tb.path + "|crc-covers-contents-and-type", ok, where(tb),
+                "the table block checksum is computed over the block contents and the compression-type byte", "crc calls %s" % [c.name for c in cs])
+    bn = P.body("logs::BlockRecord::new")
+    if bn is None:
+        return R.missing_anchor(rule, "logs::BlockRecord::new")
+    R.analysed(bn)
+    cs = [c for c in bn.calls() if not bn.is_cleanup(c.bb) and (c.name or "").startswith("crc::") and (c.name or "").endswith("checksum")]
+    covered = set()
+    for c in cs:
+        for a in c.args[1:]:
+            for o in origins(bn, a):
+                if o.kind == "param":
+                    covered.add(o.name)
+    # params: 1 = length, 2 = block_type, 3 = data
+    names = {1: "length", 2: "block_type", 3: "data"}
+    uncovered = [names[i] for i in (1, 2, 3) if i not in covered]
+    R.check(rule, "logs::BlockRecord::new|uncovered=%s" % ",".join(uncovered), not uncovered, where(bn),
+            "the fragment checksum covers the payload and the header bytes that steer reassembly (type, length)",
+            "checksum input derives from parameters %s; not covered: %s" % (sorted(names[i] for i in covered), uncovered))
